@@ -47,9 +47,9 @@ ASSUMPTIONS = [
     "all requests that share a key have the same type; socket ids are unique per node (the executor keys requests by "
     "(remote node, purpose) only)",
     "scenarios are deadlock-free by construction: every pre-allocated qubit is freed before the first wait, every "
-    "request is awaited before its subroutine ends",
+    "request is awaited -- in its own subroutine or (runs that do not avoid the recorded finding) in the application's next one",
 ]
-PROBES = ["purpose-id-differs-from-socket-id", "request-refused-by-stack", "sdk-form", "early-response", "deferred-busy-qubit", "two-requests-one-key", "cross-key-reorder", "wait-polled",
+PROBES = ["request-outlives-its-subroutine", "purpose-id-differs-from-socket-id", "request-refused-by-stack", "sdk-form", "early-response", "deferred-busy-qubit", "two-requests-one-key", "cross-key-reorder", "wait-polled",
           "wait_any", "wait_single", "create-role", "recv-role", "type-M", "type-K", "legacy-tuples", "qlink-objects",
           "two-apps-concurrent", "retry-fired"]
 
@@ -79,7 +79,7 @@ class Req:
         self.__dict__.update(kw)
 
 
-def gen_scenario(ch: Choices, calm: bool, tier: str = "quick") -> Dict[str, Any]:
+def gen_scenario(ch: Choices, calm: bool, tier: str = "quick", avoid: Any = ()) -> Dict[str, Any]:
     deep = (not calm) and tier == "thorough" and ch.flag(1, 2, "deep")   # deeper bounds in half of the thorough runs
     n_apps = 1 if calm else 1 + ch.draw(3 if deep else 2, "napps")
     apps = []
@@ -123,6 +123,12 @@ def gen_scenario(ch: Choices, calm: bool, tier: str = "quick") -> Dict[str, Any]
                 jx = ch.draw(i + 1, "worder")
                 order[i], order[jx] = order[jx], order[i]
             subs.append({"reqs": reqs, "filler": filler, "waits": waits, "order": order, "unit_need": vnext})
+        # a request may outlive its subroutine: issued in one, awaited only in the application's next one
+        if not calm and "request-outlives-subroutine" not in avoid:
+            for si in range(len(subs) - 1):
+                for r in subs[si]["reqs"]:
+                    if not r.busy and ch.flag(1, 6, "outlive"):
+                        r.defer_wait = True
         if not calm and ch.flag(1, 5, "refused"):
             # injected fault: one create request, alone in its own subroutine, is refused by the network stack; the
             # subroutine aborts there and nothing of the request may stay behind in the controller
@@ -140,9 +146,12 @@ def gen_scenario(ch: Choices, calm: bool, tier: str = "quick") -> Dict[str, Any]
     return {"apps": apps}
 
 
-def build_program(sub: Dict[str, Any]) -> List[tuple]:
+def build_program(sub: Dict[str, Any], carried: Optional[List[Any]] = None) -> List[tuple]:
     p: List[tuple] = []
     reqs: List[Req] = sub["reqs"]
+    # requests of the previous subroutine that were left un-awaited there are awaited (and returned) first
+    for r in carried or []:
+        p += [("set", T0, 0), ("set", T1, 10 * r.n), ("wait_all", r.ent_addr, T0, T1), ("ret_arr", r.ent_addr)]
     for r in reqs:
         if r.tp == "K":
             emit_array(p, r.q_addr, list(r.vids))
@@ -174,6 +183,8 @@ def build_program(sub: Dict[str, Any]) -> List[tuple]:
     # waits, in the drawn request order, in the drawn form, then a closing wait_all per request
     for j in sub["order"]:
         r = reqs[j]
+        if getattr(r, "defer_wait", False):
+            continue
         w = sub["waits"][j]
         if w == 1:
             p += [("set", T0, 0), ("set", T1, 10 * r.n), ("wait_any", r.ent_addr, T0, T1)]
@@ -183,7 +194,8 @@ def build_program(sub: Dict[str, Any]) -> List[tuple]:
             p += [("set", T0, 10), ("set", T1, 20), ("wait_all", r.ent_addr, T0, T1)]
         p += [("set", T0, 0), ("set", T1, 10 * r.n), ("wait_all", r.ent_addr, T0, T1)]
     for r in reqs:
-        p.append(("ret_arr", r.ent_addr))
+        if not getattr(r, "defer_wait", False):
+            p.append(("ret_arr", r.ent_addr))
     return p
 
 
@@ -385,7 +397,7 @@ def run(ch: Choices, opts: Dict[str, Any]) -> Dict[str, Any]:
         d[k] = d.get(k, 0) + n
 
     bump(probes, "legacy-tuples" if legacy else "qlink-objects")
-    sc = gen_scenario(ch, calm, tier=opts.get("tier", "quick"))
+    sc = gen_scenario(ch, calm, tier=opts.get("tier", "quick"), avoid=opts.get("avoid", ()))
     if len(sc["apps"]) > 1:
         bump(probes, "two-apps-concurrent")
     if slow_link:
@@ -496,8 +508,12 @@ def run(ch: Choices, opts: Dict[str, Any]) -> Dict[str, Any]:
 
     def app_task(app):
         aid = app["id"]
+        carried: List[Any] = []
         for k, sub in enumerate(app["subs"]):
-            prog = build_program(sub)
+            prog = build_program(sub, carried)
+            carried = [r for r in sub["reqs"] if getattr(r, "defer_wait", False)]
+            if carried:
+                bump(probes, "request-outlives-its-subroutine")
             g = node.handle_raw(subroutine_bytes(prog, aid, node.flavour))
             for r in sub["reqs"]:
                 if r.role == "recv":
